@@ -82,6 +82,9 @@ type Exec struct {
 	appendOwner *Loc            // the heap location the slice being appended to was read from (nil: a local value)
 	genLimit    time.Duration   // wall-clock limit for generating the conditions of one function (fail-closed when exceeded)
 	genStart    time.Time
+	genTicks    int
+	genSlow     time.Duration // time spent so far in functions that ran into genLimit
+	genSlowMax  time.Duration // once that much was spent, further functions that get slow are cut after a tenth of genLimit
 	tids        map[string]int
 	tidTypes    []types.Type
 	siteSeen    map[string]int
@@ -570,6 +573,7 @@ func (e *Exec) runBlock(st *State, fr *Frame, b *ssa.BasicBlock, prev *ssa.Basic
 		case *ssa.Phi:
 			continue // handled in enterBlock
 		case *ssa.If:
+			e.checkGenBudget()
 			c := e.val(fr, x.Cond).(*Term)
 			if v, ok := st.knows(c); ok {
 				if v {
@@ -622,9 +626,6 @@ func (e *Exec) runBlock(st *State, fr *Frame, b *ssa.BasicBlock, prev *ssa.Basic
 			}
 			if e.paths > e.maxPaths {
 				panic(unsupported(fmt.Sprintf("path limit %d exceeded in %s", e.maxPaths, e.curFn)))
-			}
-			if e.genLimit > 0 && (e.paths+e.specForks)%64 == 0 && time.Since(e.genStart) > e.genLimit {
-				panic(unsupported(fmt.Sprintf("condition generation for %s exceeded %v (%d paths, %d specification forks): too many paths to decide", e.curFn, e.genLimit, e.paths, e.specForks)))
 			}
 			st2 := st.Clone()
 			fr2 := fr.clone()
@@ -751,6 +752,26 @@ func (fr *Frame) clone() *Frame {
 }
 
 // ---------- non-control instructions ----------
+
+// checkGenBudget: generating the conditions of one function has a wall-clock limit (fail-closed when exceeded); once
+// functions that hit it have used up genSlowMax in total, the others get a tenth of the limit.
+func (e *Exec) checkGenBudget() {
+	if e.genLimit <= 0 {
+		return
+	}
+	e.genTicks++
+	if e.genTicks%8 != 0 {
+		return
+	}
+	lim := e.genLimit
+	if e.genSlowMax > 0 && e.genSlow >= e.genSlowMax {
+		lim = e.genLimit / 10
+	}
+	if time.Since(e.genStart) > lim {
+		e.genSlow += time.Since(e.genStart)
+		panic(unsupported(fmt.Sprintf("condition generation for %s exceeded %v (%d paths, %d specification forks): too many paths to decide", e.curFn, lim, e.paths, e.specForks)))
+	}
+}
 
 func (e *Exec) instr(st *State, fr *Frame, ins ssa.Instruction) {
 	switch x := ins.(type) {
